@@ -12,6 +12,12 @@ SPEC = {'level': 'exploration',
             gen('vh_c65', 'c65_waitnext_tsan', 48, 2400, cfg='tsan', workers_quick=4, workers_thorough=8, min_cases_quick=12, replays_needed=2, replays_total=5,
                 rule='same target in the ThreadSanitizer build (any TSan / lock-order report is a failure)')]}
 
+# VERIF_NO_TSAN=1 drops the ThreadSanitizer stages (used for sensitivity runs of mutants that only the differential/log oracle can see:
+# a header mutant would otherwise rebuild both trees)
+import os as _os
+if _os.environ.get('VERIF_NO_TSAN'):
+    SPEC['stages'] = [_st for _st in SPEC['stages'] if _st.get('cfg') != 'tsan']
+
 META = {'level_text': 'A waiter thread calls BlockTemplate::waitNext with generated timeouts and fee thresholds on a real in-process regtest node while a driver thread connects blocks, '
                'adds fee-bearing transactions (below / exactly at / above the threshold), interrupts and advances the mock clock in generated orders with seeded gaps. All events '
                'and the wait window are stamped with a global sequence counter; the verdict is a predicate over that log written from the statement (fresh parent, justified same-tip '
